@@ -17,6 +17,7 @@ type decoX struct {
 	out  types.Object
 	recv types.Object
 	evs  []Event
+	nd   map[types.Object]string // locals holding f.decorations[<key>]
 }
 
 func ExtractDecorate(c *Ctx) (*Sibling, error) {
@@ -29,7 +30,9 @@ func ExtractDecorate(c *Ctx) (*Sibling, error) {
 	for _, tn := range s.Order {
 		cs := s.Cases[tn]
 		x := &decoX{c: c, n: cs.NObj, recv: recv}
+		c.ComputeSubst(cs.Clause.Body, nil)
 		x.stmts(cs.Clause.Body, gctx{}, nil, nil, "")
+		c.Subst = nil
 		cs.Events = x.evs
 	}
 	return s, nil
@@ -278,6 +281,9 @@ func (x *decoX) stmt(s ast.Stmt, g gctx) {
 		if x.decsBlock(s, g) {
 			return
 		}
+		if x.decsInner(s, g) {
+			return
+		}
 		if s.Init != nil {
 			x.stmt(s.Init, g)
 		}
@@ -390,17 +396,36 @@ func (x *decoX) tracked(e ast.Expr) bool {
 
 func (x *decoX) assign(s *ast.AssignStmt, g gctx) {
 	c := x.c
+	if len(s.Lhs) == len(s.Rhs) && len(s.Lhs) > 1 {
+		for i := range s.Lhs {
+			x.assign(&ast.AssignStmt{Lhs: []ast.Expr{s.Lhs[i]}, TokPos: s.TokPos, Tok: s.Tok, Rhs: []ast.Expr{s.Rhs[i]}}, g)
+		}
+		return
+	}
 	if len(s.Lhs) != 1 || len(s.Rhs) != 1 {
 		x.other(s, g)
 		return
 	}
 	lhs, rhs := s.Lhs[0], s.Rhs[0]
 	if s.Tok == token.DEFINE {
-		if id, ok := lhs.(*ast.Ident); ok && id.Name == "out" {
+		if id, ok := lhs.(*ast.Ident); ok && x.out == nil {
 			if tn, ok := c.allocOf(rhs); ok {
 				x.out = c.Info.Defs[id]
 				x.emit(Event{Kind: KAlloc, Field: tn}, g, s.Pos())
 				return
+			}
+		}
+		// nd := f.decorations[n] (indexing a nil map is fine: the per-node map may be absent)
+		if id, ok := lhs.(*ast.Ident); ok {
+			if ix, ok := rhs.(*ast.IndexExpr); ok {
+				if p, ok := c.Path(ix.X, x.recv); ok && p == "decorations" {
+					if x.nd == nil {
+						x.nd = map[types.Object]string{}
+					}
+					x.nd[c.Info.Defs[id]] = x.operand(ix.Index)
+					x.emit(Event{Kind: KOther, Expr: id.Name + " := decorations of " + x.operand(ix.Index)}, g, s.Pos())
+					return
+				}
 			}
 		}
 		x.other(s, g)
@@ -544,4 +569,50 @@ func ExtractDecorateSelector(c *Ctx) (*Case, error) {
 	x := &decoX{c: c, n: nobj, recv: c.recvObj(fd)}
 	x.stmts(fd.Body.List, gctx{}, nil, nil, "")
 	return &Case{Type: "SelectorExpr→Ident", Events: x.evs, Pos: fd.Pos(), NObj: nobj}, nil
+}
+
+// decsInner recognises `if decs, ok := nd["Start"]; ok { out.Decs.Start = decs }` for a local nd
+// defined as f.decorations[<key>].
+func (x *decoX) decsInner(is *ast.IfStmt, g gctx) bool {
+	c := x.c
+	if is.Else != nil || len(is.Body.List) != 1 {
+		return false
+	}
+	ii, ok := is.Init.(*ast.AssignStmt)
+	if !ok || ii.Tok != token.DEFINE || len(ii.Lhs) != 2 || len(ii.Rhs) != 1 {
+		return false
+	}
+	iix, ok := ii.Rhs[0].(*ast.IndexExpr)
+	if !ok {
+		return false
+	}
+	base, ok := iix.X.(*ast.Ident)
+	if !ok {
+		return false
+	}
+	key, ok := x.nd[c.ObjOf(base)]
+	if !ok {
+		return false
+	}
+	name, ok := StringLit(iix.Index)
+	if !ok {
+		return false
+	}
+	dID, _ := ii.Lhs[0].(*ast.Ident)
+	oID, _ := ii.Lhs[1].(*ast.Ident)
+	cid, _ := is.Cond.(*ast.Ident)
+	as, ok := is.Body.List[0].(*ast.AssignStmt)
+	if !ok || dID == nil || oID == nil || cid == nil || c.ObjOf(cid) != c.Info.Defs[oID] || as.Tok != token.ASSIGN || len(as.Lhs) != 1 || len(as.Rhs) != 1 {
+		return false
+	}
+	rid, ok := as.Rhs[0].(*ast.Ident)
+	if !ok || c.ObjOf(rid) != c.Info.Defs[dID] {
+		return false
+	}
+	field, ok := c.Path(as.Lhs[0], x.out)
+	if !ok {
+		return false
+	}
+	x.emit(Event{Kind: KDec, Name: name, Field: field, Src: "decorations[" + key + "]"}, g, is.Pos())
+	return true
 }
